@@ -1160,6 +1160,11 @@ def _run_rnn(cx, u):
           configs.append((mode, ko, tm, rc))
   n_eager = len(configs) if th else 3
   eager_idx = {(u['i'] * 7 + 5 * k) % len(configs) for k in range(n_eager)}
+  # call-time overrides of a Bidirectional reach two inner RNN calls: every such configuration
+  # whose flags differ from the constructor defaults is also called eagerly
+  bi_eager = {i for i, c in enumerate(configs) if c[0] == 'bi' and (c[2] or c[3])}
+  eager_idx |= bi_eager
+  bi_done = set()
 
   for ci, (mode, ko, tm, rc) in enumerate(configs):
     cfg = f'{base_cfg} {mode} ko{ko} tm{tm} rc{rc}'
@@ -1171,7 +1176,9 @@ def _run_rnn(cx, u):
         mod = nn.Bidirectional(nn.RNN(cells['f'].cell), nn.RNN(cells['b'].cell),
                                time_major=bool(tm), return_carry=bool(rc))
         params = {'forward_rnn': {'cell': cells['f'].tree}, 'backward_rnn': {'cell': cells['b'].tree}}
-        mod0, kw0 = mod, {}
+        # eager path: default Bidirectional, time_major / return_carry overridden at call time
+        mod0 = nn.Bidirectional(nn.RNN(cells['f'].cell), nn.RNN(cells['b'].cell))
+        kw0 = dict(time_major=bool(tm), return_carry=bool(rc))
       else:
         mod = nn.RNN(cells['f'].cell, time_major=bool(tm), return_carry=bool(rc), reverse=rev,
                      keep_order=bool(ko))
@@ -1192,7 +1199,8 @@ def _run_rnn(cx, u):
       if mode == 'bi':
         mod = nnx.Bidirectional(nnx.RNN(cells['f'].cell), nnx.RNN(cells['b'].cell),
                                 time_major=bool(tm), return_carry=bool(rc))
-        mod0, kw0 = mod, {}
+        mod0 = nnx.Bidirectional(nnx.RNN(cells['f'].cell), nnx.RNN(cells['b'].cell))
+        kw0 = dict(time_major=bool(tm), return_carry=bool(rc))
       else:
         mod = nnx.RNN(cells['f'].cell, time_major=bool(tm), return_carry=bool(rc), reverse=rev,
                       keep_order=bool(ko))
@@ -1249,7 +1257,9 @@ def _run_rnn(cx, u):
         cx.sample(section='rnn', cfg=cfg, seq_lengths=Ls, outputs=ys, valid=valid.astype(int))
 
       # -- eager call (flags as call-time overrides) for a rotating subset of configurations
-      if ci in eager_idx and si == (u['i'] + ci) % len(all_sl):
+      if ci in eager_idx and (si == (u['i'] + ci) % len(all_sl)
+                              or ci in bi_eager and ci not in bi_done and npad):
+        bi_done.add(ci)
         ys_e, cl_e = normalize(fn0(state, jnp.asarray(arrange(x, tm)), sl, ic_arg), rc, tm)
         cx.ev()
         ok = _close(ys_e, ys, TOL_STEP, valid)[0] and len(cl_e) == len(cl) and \
